@@ -349,6 +349,61 @@ def hb_close_case(item):
     return name, ("ok" if not fails else "fail",), fails
 
 
+def hb_exact_case(item):
+    """Heartbeat requests whose encoding is exactly / one less / one more
+    than the sender's record size (user-set): one record each, answered,
+    and the data that follows flows."""
+    cfg, who, rs, delta, seed = item[:5]
+    responder = len(item) > 5 and item[5] == "responder"
+    st, sc, out = setup(cfg, seed)
+    name = "%s/%s/rs%d%+d%s" % (cfg[0], who, rs, delta,
+                                "/responder-limited" if responder else "")
+    if st is None:
+        return name, None, []
+    pair = st.pair
+    other = "S" if who == "C" else "C"
+    ep = pair.ep(who)
+    if not (ep.heartbeat_supported and ep.heartbeat_can_send):
+        return name, None, []
+    fails = []
+    if responder:
+        # the *answering* side has the small record size: a response that
+        # does not fit one record cannot be sent, nothing bogus comes back
+        pair.ep(other).recordSize = rs
+    else:
+        ep.recordSize = rs
+    payload = bytes((i * 5 + 1) & 0xff for i in range(rs - 3 - 16 + delta))
+    o = W.run_gen(pair.world, who, ep.write_heartbeat(bytearray(payload), 16))
+    refused = False
+    if o.status != "ok":
+        if delta > 0 and isinstance(o.exc, E.TLSInternalError):
+            # a message that does not fit one record is refused locally
+            # (it cannot be split); the connection stays usable
+            refused = True
+        else:
+            fails.append("write_heartbeat: %r" % (o.sig()[:3],))
+    w = pair.write(who, b"ping")
+    r = pair.read(other, None, 4)
+    if w.status != "ok" or r.status != "ok" or bytes(r.value) != b"ping":
+        fails.append("data after the heartbeat request: write %r read %r" % (
+            w.sig()[:3], r.sig()[:3]))
+    w2 = pair.write(other, b"pong")
+    r2 = pair.read(who, None, 4)
+    if w2.status != "ok" or r2.status != "ok" or bytes(r2.value) != b"pong":
+        fails.append("data back: write %r read %r" % (w2.sig()[:3],
+                                                      r2.sig()[:3]))
+    got = [p for (p, _) in st.hb[who].responses]
+    if [p for p in got if p != payload]:
+        fails.append("a heartbeat response with another payload than the "
+                     "request's reached the requester")
+    if responder and delta > 0:
+        refused = True      # (no answer is the right answer)
+    if payload not in got and not fails and not refused:
+        fails.append("no heartbeat response with the request's payload "
+                     "reached the requester (%d responses)" % len(got))
+    return name, ("ok" if not fails else "fail",), fails
+
+
 def adversarial_cases():
     ku0 = b"\x18\x00\x00\x01\x00"
     ku1 = b"\x18\x00\x00\x01\x01"
@@ -545,6 +600,22 @@ def run(res, tier, seed):
             res.violation({"part": "heartbeat-then-close", "what": f[:40]},
                           {"case": name, "fail": f}, {"hb_close": name})
     res.section("heartbeat_then_close", executions=nh)
+    xitems = [(cfg, who, rs, d, seed) for cfg in cfgs for who in ("C", "S")
+              for rs in (64, 100) for d in (-1, 0, 1)]
+    xitems += [(cfg, who, rs, d, seed, "responder") for cfg in cfgs
+               for who in ("C", "S") for rs in (64, 100)
+               for d in (-1, 0, 1, 40)]
+    nx = 0
+    for (name, sig, fails) in pmap(hb_exact_case, xitems):
+        if sig is None:
+            continue
+        nx += 1
+        res.count()
+        res.outcome(("hb-exact",) + tuple(sig))
+        for f in fails:
+            res.violation({"part": "heartbeat-record-size", "what": f[:40]},
+                          {"case": name, "fail": f}, {"hb_exact": name})
+    res.section("heartbeat_at_record_size", executions=nx)
     # post-handshake authentication: the chain is recorded only after the
     # client's CertificateVerify *and* Finished verify (corruption of each
     # message of the client's flight, CertificateVerify omitted)
